@@ -216,6 +216,14 @@ func runR08_4(c *Ctx, r0 *R, part string) {
 				}
 				continue
 			}
+			if why, handled := tableHelperCoverage(c, e, fn, g, N); handled {
+				if why == "" {
+					r.OK(key+"/coverage", g.Pos(), "the region is handed to a table writer per entry format; each writes every entry p[off:off+S] fully, off advancing by S from 0 over the table that sized the region")
+				} else {
+					r.Bad(key+"/coverage", g.Pos(), "%s", why)
+				}
+				continue
+			}
 			// group writes by interval; each group must execute on every path to every normal return
 			groups := map[string][]wInterval{}
 			for _, iv := range ivs {
